@@ -96,3 +96,75 @@ Theorem constants_defined :
   /\ recover_x g_y false = Some g_x
   /\ base = (g_x, g_y, 1, fmul g_x g_y).
 Proof. vm_compute. repeat split. Qed.
+
+(* ---- the point addition of Ed25519.v computes, on canonical representatives, the formulas of the RFC's reference code modulo p *)
+Definition canonz (x : Z) : Prop := 0 <= x < fp.
+Lemma fp_pos : 0 < fp. Proof. reflexivity. Qed.
+Lemma canon_mod x : canonz (x mod fp). Proof. apply Z.mod_pos_bound. exact fp_pos. Qed.
+Lemma fmul_c a b : canonz a -> canonz b -> canonz (fmul a b).
+Proof. intros. rewrite fmul_spec by assumption. apply canon_mod. Qed.
+Lemma fadd_c a b : canonz a -> canonz b -> canonz (fadd a b).
+Proof. intros. rewrite fadd_spec by assumption. apply canon_mod. Qed.
+Lemma fsub_c a b : canonz a -> canonz b -> canonz (fsub a b).
+Proof. intros. rewrite fsub_spec by assumption. apply canon_mod. Qed.
+
+(* the reference code of RFC 8032 section 6, over the integers *)
+Definition point_add_rfc (P Q : point) : point :=
+  let '(x1, y1, z1, t1) := P in let '(x2, y2, z2, t2) := Q in
+  let A := (y1 - x1) * (y2 - x2) mod fp in
+  let B := (y1 + x1) * (y2 + x2) mod fp in
+  let C := 2 * t1 * t2 * cd mod fp in
+  let D := 2 * z1 * z2 mod fp in
+  let E := B - A in let F := D - C in let G := D + C in let H := B + A in
+  (E * F, G * H, F * G, E * H).
+
+Definition canonp (P : point) : Prop := let '(x, y, z, t) := P in canonz x /\ canonz y /\ canonz z /\ canonz t.
+Definition eqp (P Q : point) : Prop :=
+  let '(x1, y1, z1, t1) := P in let '(x2, y2, z2, t2) := Q in
+  x1 mod fp = x2 mod fp /\ y1 mod fp = y2 mod fp /\ z1 mod fp = z2 mod fp /\ t1 mod fp = t2 mod fp.
+
+Lemma cd_canon : canonz cd. Proof. unfold canonz. split; [discriminate|reflexivity]. Qed.
+
+Ltac modsimp := repeat (rewrite ?Zmult_mod_idemp_l, ?Zmult_mod_idemp_r, ?Zplus_mod_idemp_l, ?Zplus_mod_idemp_r, ?Zminus_mod_idemp_l, ?Zminus_mod_idemp_r, ?Z.mod_mod by (unfold fp; lia)).
+
+Theorem point_add_spec P Q : canonp P -> canonp Q -> canonp (point_add P Q) /\ eqp (point_add P Q) (point_add_rfc P Q).
+Proof.
+  destruct P as [[[x1 y1] z1] t1], Q as [[[x2 y2] z2] t2]. intros (X1 & Y1 & Z1 & T1) (X2 & Y2 & Z2 & T2).
+  unfold point_add, point_add_rfc. cbv zeta.
+  pose proof cd_canon as Hd.
+  assert (HA := fsub_c y1 x1 Y1 X1). assert (HA' := fsub_c y2 x2 Y2 X2).
+  assert (HB := fadd_c y1 x1 Y1 X1). assert (HB' := fadd_c y2 x2 Y2 X2).
+  assert (HT := fadd_c t1 t1 T1 T1). assert (HZ := fadd_c z1 z1 Z1 Z1).
+  set (A := fmul (fsub y1 x1) (fsub y2 x2)). assert (cA : canonz A) by (apply fmul_c; assumption).
+  set (B := fmul (fadd y1 x1) (fadd y2 x2)). assert (cB : canonz B) by (apply fmul_c; assumption).
+  set (C := fmul (fmul (fadd t1 t1) t2) cd). assert (cC : canonz C) by (apply fmul_c; [apply fmul_c|]; assumption).
+  set (D := fmul (fadd z1 z1) z2). assert (cD : canonz D) by (apply fmul_c; assumption).
+  assert (cE := fsub_c B A cB cA). assert (cF := fsub_c D C cD cC). assert (cG := fadd_c D C cD cC). assert (cH := fadd_c B A cB cA).
+  split; [repeat split; apply fmul_c; assumption|].
+  assert (EA : A = (y1 - x1) * (y2 - x2) mod fp).
+  { unfold A. rewrite fmul_spec, !fsub_spec by assumption. modsimp. reflexivity. }
+  assert (EB : B = (y1 + x1) * (y2 + x2) mod fp).
+  { unfold B. rewrite fmul_spec, !fadd_spec by assumption. modsimp. reflexivity. }
+  assert (EC : C = 2 * t1 * t2 * cd mod fp).
+  { unfold C. rewrite (fmul_spec _ cd) by (try apply fmul_c; assumption). rewrite fmul_spec, fadd_spec by assumption. modsimp.
+    replace ((t1 + t1) mod fp * t2 * cd) with ((t1 + t1) mod fp * (t2 * cd)) by ring. modsimp. f_equal. ring. }
+  assert (ED : D = 2 * z1 * z2 mod fp).
+  { unfold D. rewrite fmul_spec, fadd_spec by assumption. modsimp. f_equal. ring. }
+  rewrite <- EA, <- EB, <- EC, <- ED.
+  unfold eqp. rewrite !fmul_spec by assumption. rewrite !fsub_spec, !fadd_spec by assumption. modsimp. repeat split; reflexivity.
+Qed.
+
+(* ---- what verification refuses outright (RFC 8032 5.1.7: lengths, and S must be canonical -- no signature malleability by adding L) *)
+Theorem verify_needs_lengths pub msg sg : verify pub msg sg = true -> length pub = 32%nat /\ length sg = 64%nat.
+Proof.
+  unfold verify. destruct (Nat.eqb (length pub) 32) eqn:E1; cbn [negb orb]; [|discriminate].
+  destruct (Nat.eqb (length sg) 64) eqn:E2; cbn [negb]; [|discriminate].
+  intros _. split; apply Nat.eqb_eq; assumption.
+Qed.
+
+Theorem verify_needs_canonical_s pub msg sg : verify pub msg sg = true -> le_num (skipn 32 sg) < fq.
+Proof.
+  unfold verify. destruct (negb _ || negb _); [discriminate|].
+  destruct (point_decompress pub); [|discriminate]. destruct (point_decompress (firstn 32 sg)); [|discriminate].
+  destruct (fq <=? le_num (skipn 32 sg)) eqn:E; [discriminate|]. intros _. apply Z.leb_gt in E. exact E.
+Qed.
